@@ -9,7 +9,7 @@ from vmm.ref import tbrref
 ID = 'C18'
 RULE = ('Hypothesis experiment frames with n_cool >= 1 and a cost column (both scenarios), default and post-analysis-colab '
         'layouts (assignment column, labels 2/1/-1, excluded geos, period -1 rows before/after, date gaps), metric in '
-        '{tbr_response, tbr_cost}, tails in {1,2}, level in [0.55,0.995] (one tail) / (0.02,0.995] (two tails); in half of the cases the model object was first fitted to a frame of the other cost scenario and queried. '
+        '{tbr_response, tbr_cost}, tails in {1,2}, level in [0.55,0.995] (one tail) / (0.02,0.995] (two tails); in half of the cases the model object was first fitted to a frame of the other cost scenario and queried; in half of the cases the caller edits its own frame (unit change, rows dropped in place) between fit() and the report. '
         'Non-trivial = n_pre >= 4 and >= 2 analysed days (first differences exist); distinct by spec hash.')
 BUDGET = {'quick': 800, 'thorough': 30000}
 FLOOR = {'quick': 300, 'thorough': 10000}
@@ -25,7 +25,7 @@ def _spec(draw):
   else:
     level = draw(st.sampled_from([0.9, 0.8, 0.5])) if draw(st.booleans()) else draw(st.floats(0.02, 0.995, exclude_min=True))
   return {'frame': fs, 'metric': draw(st.sampled_from(['tbr_response', 'tbr_cost'])), 'tails': tails, 'level': level,
-          'refit': draw(st.booleans())}
+          'refit': draw(st.booleans()), 'scribble': draw(st.booleans())}
 
 
 def strategy(tier):
@@ -78,6 +78,7 @@ def run(spec):
       cls.append('posterior-scale-decreases')
   dates3 = [d for d, k in zip(truth['dates'], in3) if k]
   dates_an = [d for d, k in zip(truth['dates'], an) if k]
+  df_in = df.copy(deep=True) if spec.get('scribble') else df
   try:
     if spec.get('refit'):
       other = dict(fs, cost=dict(fs['cost'], scenario='variable' if scen == 'fixed' else 'fixed'), n_pre=fs['n_pre'] + 1,
@@ -90,10 +91,16 @@ def run(spec):
         m.summary(random_state=1, nsims=50)
       except Exception:  # pylint: disable=broad-except
         pass
-      m.fit(df, **kwargs)
+      m.fit(df_in, **kwargs)
       cls.append('refit')
     else:
-      m = c07.fit_model(df, kwargs, True)
+      m = c07.fit_model(df_in, kwargs, True)
+    if spec.get('scribble'):
+      # the caller keeps editing its own frame after fit() and before the first report
+      if not df_in.equals(df):
+        viol.append(('C18:input-frame-modified', det))
+      frames.scribble(df_in, truth['names'])
+      cls.append('caller-edits-frame-after-fit')
     ts = m.estimate_pointwise_and_cumulative_effect(metric=metric, level=spec['level'], tails=spec['tails'])
   except Exception as e:  # pylint: disable=broad-except
     kind = core.crash_kind('C18', e)
